@@ -268,7 +268,7 @@ def wf_script(app_id: str, tag: str, script: list, fail_after: list | None = Non
     return c18_probe.run_script("wf_script", app_id, tag, script, fail_after)
 
 
-def wf_child(app_id: str, tag: str, script: list) -> list:
+def wf_child(app_id: str, tag: str, script: list, note: str = "-") -> list:
     """Sub-task launched by `wf_script` through `wf.execute_task`; runs its own script when executed."""
     from harness import c18_probe
 
